@@ -29,6 +29,7 @@ var skeletonFuncs = []string{
 	"params.set", "method.parseQueryParams", "fieldPath", "NewServer", "createConnHandler",
 	"parseParam", "quote", "streamHTTP.getCodec", "Mux.match",
 	"state.addConnHandler", "state.processFile", "path.alive", "Mux.loadState", "Mux.storeState",
+	"gzipReader.Read", "gzipWriter.Close", "CompressorGzip.Compress", "CompressorGzip.Decompress", "streamGRPC.compress", "streamGRPC.decompress",
 }
 
 func leanIdent(fn string) string {
@@ -136,6 +137,8 @@ func simpleStmts(g *genCtx, fd *ast.FuncDecl) (out []string) {
 var stmtFuncs = []string{
 	"state.clone", "path.clone", "state.removeHandler", "state.appendHandler", "state.addConnHandler", "path.delRule",
 	"Mux.registerService", "Mux.RegisterConn", "Mux.DropConn", "Mux.loadState", "Mux.storeState",
+	"gzipReader.Read", "gzipWriter.Close", "CompressorGzip.Compress", "CompressorGzip.Decompress", "streamGRPC.compress", "streamGRPC.decompress",
+	"streamGRPC.RecvMsg", "streamGRPC.SendMsg", "streamHTTP.readMsg", "streamHTTP.decodeRequestArgs", "streamHTTP.SendMsg", "createConnHandler",
 }
 
 // writerOrder: the order of lock / load / modify / store / unlock in a writer function
